@@ -215,7 +215,8 @@ def m3(ck, em, rng, ntraces):
             stop_at = cand[0] if cand else cap
         ev = ev[:stop_at] + [{"ev": "Stop", "k": stop_at, "rank": 0, "rel": "na", "guard": False, "valid": True, "why": ""}]
         # rank of the initial distortion precedes the first iteration: prepend as the monitor's initial rank
-        tr = {"kind": "kmeans", "cap": cap, "thr": thr is not None, "dir": "down", "ev": ev, "rank0": rk[0]}
+        tr = {"kind": "kmeans", "cap": cap, "thr": thr is not None, "dir": "down", "ev": ev, "rank0": rk[0],
+              "fromStart": True}     # cents[0] are the centroids the first iteration was entered with: it descends too
         trs.append(tr)
         meta.append({"seed": seed, "n": n, "d": d, "k": k, "init": method, "cap": cap, "thr": thr,
                      "chunks": chunks[0] if chunks else None, "distortion": D, "reported": crits})
